@@ -250,6 +250,12 @@ def run(chk, ctx) -> None:
                 if isinstance(c, ast.Call) and isinstance(c.func, ast.Attribute) and c.func.attr == 'append' and c.args:
                     got = T.norm(c.args[0])
                     ok = got == T.spec(f'{f_name} - {s_name}')
+    from .helpers import no_format_specs
+    no_format_specs(chk, ctx, 'C17.layout', [acpc, plur])
+    # the result field is the payoffs as they are (str of each number, joined by `|`): no rounding, no number formatting
+    rendered = bool(m.exprs(plur.node, "'|'.join(map(str, raw_payoffs))")) or bool(m.exprs(plur.node, "'|'.join(str(payoff) for payoff in raw_payoffs)"))
+    chk.ob('C17.payoff', f'{plur.qualname}:rendering', rendered, plur.loc,
+           'the payoff field is str() of each payoff joined by `|` (a format specification would round or switch to exponent notation)')
     chk.ob('C17.payoff', plur.qualname, ok, plur.loc,
            'Pluribus result field = finishing stack - starting stack per seat (stacks paired seat by seat)', got=T.show(got) if got else None)
     # ------------------------------------------------------------------ gates
